@@ -842,3 +842,323 @@ def vc_bladedict_getitem(H):
                     ctx.oblige('post: blade by any spelling == (-1)^swaps * canonical blade', same(r, exp), meta={'got': repr(r), 'expected': repr(exp)})
                     return r
                 H.run_paths(fuc, f'valid={valid},cached={cached},graded={graded}', body)
+
+
+# =====================================================================================
+# custom basis: the `if self.basis:` branch of Algebra.__post_init__
+# =====================================================================================
+class _CBWorld:
+    """Ghost description of an arbitrary user-supplied basis: n names, name i has ln(i) characters ch(i, 0..ln(i)-1); the names
+    of length 2 ('e' + one generator character) are, in basis order, the vectors vc(0..nv-1)."""
+
+    def __init__(self, ctx):
+        I, C, B = z3.IntSort(), z3.BitVecSort(CB), z3.BitVecSort(WB)
+        self.ctx = ctx
+        self.n = SInt(z3.Int('n_basis'))
+        self.nv = SInt(z3.Int('n_vectors'))
+        self.ln = z3.Function('name_len', I, I)
+        self.ch = z3.Function('name_char', I, I, C)
+        self.vc = z3.Function('vec_char', I, C)
+        self.idx = z3.Function('vec_index', I, I)          # basis position of the j-th vector
+        self.vno = z3.Function('vec_no', I, I)             # vector number of basis position i (when ln(i) == 2)
+        self.pos = z3.Function('gen_pos', C, I)            # vector number of a generator character
+        self.pm = z3.Function('prefix_mask', I, I, B)      # ghost: OR of the bits of the first k generator characters of name i
+        ctx.assume(z3.And(self.n.t >= 1, self.nv.t >= 0, self.nv.t <= W))
+
+    def bit(self, c):
+        """2 ** (vector number of generator character c)"""
+        return z3.BitVecVal(1, WB) << z3.Int2BV(self.pos(c), WB)
+
+    # -- preconditions on the input (well-formed basis), instantiated at the terms in use
+    def name_facts(self, i):
+        self.ctx.assume(z3.And(i >= 0, i < self.n.t, self.ln(i) >= 1))
+
+    def char_facts(self, i, k):
+        """W3: every generator character of a name is one of the vector names"""
+        c = self.ch(i, k)
+        p = self.pos(c)
+        self.ctx.assume(z3.And(p >= 0, p < self.nv.t, self.vc(p) == c))
+
+    def vec_facts(self, j):
+        """the vectors are the length-2 names in basis order (semantics of a filtering list comprehension) and pairwise
+        distinct (W4): pos is the inverse of vc"""
+        i = self.idx(j)
+        self.ctx.assume(z3.And(j >= 0, j < self.nv.t, i >= 0, i < self.n.t, self.ln(i) == 2, self.ch(i, 1) == self.vc(j),
+                               self.vno(i) == j, self.pos(self.vc(j)) == j))
+
+    def vecpos_facts(self, i):
+        self.ctx.assume(z3.Implies(self.ln(i) == 2, z3.And(self.vno(i) >= 0, self.vno(i) < self.nv.t, self.idx(self.vno(i)) == i)))
+
+
+class _BName:
+    """basis[i]"""
+
+    def __init__(self, M, i):
+        self.M, self.i = M, i
+
+    def kvc_len(self):
+        return SInt(self.M.ln(self.i.t))
+
+    def kvc_getitem(self, interp, idx):
+        if isinstance(idx, slice) and idx.start == 1 and idx.stop is None and idx.step is None:
+            return _BSuffix(self.M, self.i)
+        if isinstance(idx, int) and not isinstance(idx, bool) and idx == 0:
+            return 'e'                      # asserted by the branch itself before any use
+        raise OutOfSubset('use of a basis name other than name[0], name[1:], len(name)')
+
+    def kvc_eq(self, interp, other):
+        if isinstance(other, _BName):
+            return mkbool(self.i.t == other.i.t) if not z3.eq(self.i.t, other.i.t) else True
+        raise OutOfSubset('comparison of a basis name with something else')
+
+    def kvc_isinstance(self, interp, cls):
+        classes = cls if isinstance(cls, tuple) else (cls,)
+        return any(c is str for c in classes)
+
+
+from kvc.models import SymSeq as _SymSeq, CompSeq as _CompSeq, sint as _sint      # noqa: E402
+
+
+class _BSuffix(_SymSeq):
+    """basis[i][1:]: the generator characters of name i"""
+
+    def __init__(self, M, i):
+        self.M, self.i = M, i
+
+        def get(k):
+            M.char_facts(i.t, k.t + 1)
+            return SChar(M.ch(i.t, k.t + 1))
+        super().__init__(None, SInt(M.ln(i.t) - 1), get, 'str')
+
+
+def vc_custom_basis(H):
+    """C01 / C14 / C15: for ANY user-supplied basis (any number of names, any lengths, any generator characters) that is well
+    formed -- every generator character of a name is one of the one-character vector names, vector names pairwise distinct,
+    the characters within a name pairwise distinct -- the branch establishes the naming facts the sign chain relies on:
+      P1  start_index == int(min(vector names))
+      P2  canon2bin[basis[i]] == OR of 2**(vector number of c) over the generator characters c of basis[i]; the j-th vector
+          (in basis order) has key 2**j; the keys are below 2**(number of vectors)
+      P3  bin2canon maps canon2bin[name] back to name and is filled in ascending key order.
+    The statements of the branch are executed one by one on the ghost basis; after each, the value it produced is checked for a
+    generic index and replaced by its abstract description.  `assert` statements are skipped (they only reject inputs)."""
+    import ast
+    from kvc.engine import Env, BUILTIN_ENV, Closure
+    fuc = H.fn(REL, 'Algebra.__post_init__')
+    branch = None
+    for n in ast.walk(fuc.ex.node):
+        if (isinstance(n, ast.If) and isinstance(n.test, ast.Attribute) and n.test.attr == 'basis'
+                and isinstance(n.test.value, ast.Name) and n.test.value.id == 'self'):
+            branch = n
+            break
+
+    def body(ctx):
+        if branch is None:
+            raise OutOfSubset('custom-basis branch `if self.basis:` not found in __post_init__')
+        M = _CBWorld(ctx)
+        bv = lambda t, hi=(1 << W) - 1: SKey(t, 0, hi)
+        basis = _SymSeq(None, M.n, lambda i: (M.name_facts(i.t), _BName(M, i))[1], 'list')
+        basis.is_basis = True
+        done = {}
+
+        class Self:
+            def __init__(self):
+                self.attrs = {'basis': basis}
+
+            def kvc_getattr(self, interp, name):
+                if name in self.attrs:
+                    return self.attrs[name]
+                raise OutOfSubset(f'custom-basis branch reads self.{name}')
+
+            def kvc_setattr(self, interp, name, v):
+                self.attrs[name] = v
+        me = Self()
+
+        # ---- models of the builtins the branch applies to sequences of unknown length
+        class VecSeq(_SymSeq):
+            def __init__(self):
+                def get(j):
+                    M.vec_facts(j.t)
+                    return SChar(M.vc(j.t))
+                super().__init__(None, M.nv, get, 'list')
+        st = {}
+
+        class MinModel:
+            def kvc_call(self, interp, *a, **k):
+                if len(a) == 1 and not k and a[0] is st.get('vecs'):
+                    jm = z3.Int('j_min')
+                    M.vec_facts(jm)
+                    st['min'] = SChar(M.vc(jm))
+                    st['jmin'] = jm
+                    return st['min']
+                raise OutOfSubset('min() of something other than the list of vector names')
+
+        class IntModel:
+            def kvc_call(self, interp, x=0, base=10):
+                if x is st.get('min') and base == 10:
+                    # int() of a letter raises ValueError (input rejected): only decimal digits continue
+                    ctx.assume(z3.ULE(x.c, 9))
+                    return SKey(z3.ZeroExt(WB - CB, x.c), 0, 9)
+                from kvc.engine import _m_int
+                return _m_int(interp, x, base)
+
+        class ReduceModel:
+            def kvc_call(self, interp, f, it, *init):
+                if not (isinstance(it, _CompSeq) and isinstance(it.src, _BSuffix)):
+                    from kvc.engine import _m_reduce
+                    return _m_reduce(interp, f, it, *init)
+                i = it.src.i
+                if len(init) != 1:
+                    raise OutOfSubset('reduce without an initial value over the generator characters')
+                a0 = init[0]
+                ctx.oblige('fold-init: the mask of no characters is 0', (a0 == 0) if isinstance(a0, (int, SKey)) else False, 'inv')
+                k = z3.Int(ctx.fresh('k'))
+                ctx.assume(z3.And(k >= 0, k < M.ln(i.t) - 1))
+                cond, el = it.at(SInt(k))
+                if cond is not True:
+                    raise OutOfSubset('filtered generator inside the fold')
+                c = M.ch(i.t, k + 1)
+                pmk = bv(M.pm(i.t, k))
+                # ghost invariant (lemma L-prefix-disjoint below): the bits collected so far do not contain the next one
+                ctx.assume(pmk.t & M.bit(c) == 0)
+                r = interp.call(f, [pmk, el], {})
+                ctx.oblige('fold-step: acc <op> vec2bin[c] == acc with the bit of generator c added',
+                           (r.t == (pmk.t | M.bit(c))) if isinstance(r, SKey) else False, 'inv')
+                st.setdefault('folded', []).append(i)
+                return bv(M.pm(i.t, M.ln(i.t) - 1))
+
+        class SortedModel:
+            def kvc_call(self, interp, it, key=None, reverse=False):
+                if it is not st.get('items'):
+                    from kvc.engine import _m_sorted
+                    return _m_sorted(interp, it, key, reverse)
+                sigma = z3.Function('sorted_perm', z3.IntSort(), z3.IntSort())
+                st['sigma'] = sigma
+                i = z3.Int(ctx.fresh('i'))
+                M.name_facts(i)
+                el = it.get(SInt(i))
+                kv = interp.call(key, [el], {}) if key is not None else None
+                ctx.oblige('sorted: the sort key of a (name, key) pair is its key', isinstance(kv, SKey) and z3.eq(kv.t, el[1].t), 'post')
+                ctx.oblige('sorted: ascending', reverse is False, 'post')
+
+                def get(m):
+                    s_ = sigma(m.t)
+                    ctx.assume(z3.And(s_ >= 0, s_ < M.n.t))
+                    return it.get(SInt(s_))
+                out = _SymSeq(None, M.n, get, 'list')
+                out.sorted_of = it
+                return out
+
+        class C2B:
+            def items(self):
+                if 'items' not in st:
+                    def get(i):
+                        M.name_facts(i.t)
+                        return (_BName(M, i), bv(M.pm(i.t, M.ln(i.t) - 1)))
+                    st['items'] = _SymSeq(None, M.n, get, 'items')
+                return st['items']
+
+        class Vec2Bin:
+            def kvc_getitem(self, interp, c):
+                if not isinstance(c, SChar):
+                    raise OutOfSubset('vec2bin lookup of something other than one generator character')
+                p = M.pos(c.c)
+                ctx.safety('KeyError: generator character is not a vector name', z3.And(p >= 0, p < M.nv.t, M.vc(p) == c.c))
+                return SKey(M.bit(c.c), 1, 1 << (W - 1))
+
+        interp = Interp(ctx, source_name=REL)
+        env = Env(dict(BUILTIN_ENV))
+        env.vars.update({'self': me, 'min': MinModel(), 'int': IntModel(), 'reduce': ReduceModel(), 'sorted': SortedModel()})
+        i = z3.Int('i')
+        M.name_facts(i)
+        j = z3.Int('j')
+        M.vec_facts(j)
+
+        def chk_vecs():
+            v = env.lookup('vecs')
+            if not (isinstance(v, _CompSeq) and v.kind == 'list' and v.src is basis):
+                raise OutOfSubset('vecs is not one list comprehension over self.basis')
+            cond, el = v.at(SInt(i))
+            ct = cond.t if isinstance(cond, SBool) else z3.BoolVal(bool(cond))
+            ctx.oblige('vecs: a name is selected  <=>  it has exactly one generator character', ct == (M.ln(i) == 2))
+            ctx.oblige('vecs: the selected element is the generator character (name[1:])', isinstance(el, _BSuffix) and z3.eq(el.i.t, i))
+            st['vecs'] = VecSeq()
+            env.vars['vecs'] = st['vecs']
+
+        def chk_start():
+            v = me.attrs.get('start_index')
+            ok = isinstance(v, SKey) and 'min' in st
+            ctx.oblige('P1: start_index == int(min(vector names))', (v.t == z3.ZeroExt(WB - CB, st['min'].c)) if ok else False)
+
+        def chk_vec2bin():
+            v = env.lookup('vec2bin')
+            if not (isinstance(v, _CompSeq) and v.kind == 'dict'):
+                raise OutOfSubset('vec2bin is not one dict comprehension')
+            cond, (k, val) = v.at(SInt(j))
+            ctx.oblige('vec2bin: every vector gets an entry', cond is True)
+            ctx.oblige('vec2bin: the entry of the j-th vector (basis order) is keyed by its character', isinstance(k, SChar) and (k.c == M.vc(j)))
+            ctx.oblige('vec2bin: the j-th vector gets the key 2**j', (val.t == (z3.BitVecVal(1, WB) << z3.Int2BV(j, WB))) if isinstance(val, SKey) else False)
+            env.vars['vec2bin'] = Vec2Bin()
+
+        def chk_canon2bin():
+            v = me.attrs.get('canon2bin')
+            if not (isinstance(v, _CompSeq) and v.kind == 'dict' and v.src is basis):
+                raise OutOfSubset('canon2bin is not one dict comprehension over self.basis')
+            cond, (k, val) = v.at(SInt(i))
+            ctx.oblige('canon2bin: every name gets an entry', cond is True)
+            ctx.oblige('canon2bin: the entry of basis[i] is keyed by that name', isinstance(k, _BName) and z3.eq(k.i.t, i))
+            ctx.oblige('P2: canon2bin[basis[i]] == OR of the bits of its generator characters',
+                       (val.t == M.pm(i, M.ln(i) - 1)) if isinstance(val, SKey) else False)
+            me.attrs['canon2bin'] = C2B()
+
+        def chk_bin2canon():
+            v = me.attrs.get('bin2canon')
+            srt = getattr(v, 'src', None)
+            if not (isinstance(v, _CompSeq) and v.kind == 'dict' and getattr(srt, 'sorted_of', None) is st.get('items')):
+                raise OutOfSubset('bin2canon is not one dict comprehension over sorted(self.canon2bin.items(), ...)')
+            m = z3.Int('m')
+            ctx.assume(z3.And(m >= 0, m < M.n.t))
+            cond, (k, val) = v.at(SInt(m))
+            s_ = st['sigma'](m)
+            ctx.oblige('bin2canon: every pair gets an entry', cond is True)
+            ctx.oblige('P3: the m-th entry (ascending key order) maps canon2bin[name] to that name',
+                       z3.And(k.t == M.pm(s_, M.ln(s_) - 1), val.i.t == s_) if isinstance(k, SKey) and isinstance(val, _BName) else False)
+        handlers = {'vecs': chk_vecs, 'self.start_index': chk_start, 'vec2bin': chk_vec2bin, 'self.canon2bin': chk_canon2bin,
+                    'self.bin2canon': chk_bin2canon}
+        skipped = 0
+        for s_ in branch.body:
+            if isinstance(s_, ast.Assert):
+                skipped += 1
+                continue
+            tgt = None
+            if isinstance(s_, ast.Assign) and len(s_.targets) == 1:
+                t = s_.targets[0]
+                tgt = t.id if isinstance(t, ast.Name) else ('self.' + t.attr if isinstance(t, ast.Attribute) and isinstance(t.value, ast.Name) and t.value.id == 'self' else None)
+            if tgt not in handlers or tgt in done:
+                raise OutOfSubset(f'custom-basis branch: statement at line {getattr(s_, "lineno", "?")} is not one of the five recognised assignments')
+            interp.exec_stmt(s_, env, 'Algebra.__post_init__')
+            handlers[tgt]()
+            done[tgt] = True
+        if set(done) != set(handlers):
+            raise OutOfSubset(f'custom-basis branch: assignments missing: {sorted(set(handlers) - set(done))}')
+        ctx.notes.append(f'{skipped} assert statement(s) skipped (they only reject inputs)')
+        # ---- lemmas about the ghost prefix mask (code independent): definition pm(i,0) = 0, pm(i,k+1) = pm(i,k) | bit(ch(i,k+1))
+        k, m2 = z3.Int('k'), z3.Int('m2')
+        defs = [M.pm(i, 0) == 0, M.pm(i, k + 1) == (M.pm(i, k) | M.bit(M.ch(i, k + 1)))]
+        ck, cm = M.ch(i, k + 1), M.ch(i, m2 + 1)
+        wf = [k >= 0, m2 > k, m2 < M.ln(i) - 1, ck != cm,                                   # W6: characters within a name are distinct
+              M.pos(ck) >= 0, M.pos(ck) < M.nv.t, M.vc(M.pos(ck)) == ck, M.pos(cm) >= 0, M.pos(cm) < M.nv.t, M.vc(M.pos(cm)) == cm]
+        H.add_goal('L-prefix-disjoint (base): the empty prefix mask contains no bit', defs, M.pm(i, 0) & M.bit(cm) == 0, kind='lemma')
+        H.add_goal('L-prefix-disjoint (step): a later character\'s bit is not in the prefix mask after adding an earlier one',
+                   list(ctx.pc) + defs + wf + [M.pm(i, k) & M.bit(cm) == 0], M.pm(i, k + 1) & M.bit(cm) == 0, kind='lemma')
+        lim = z3.BitVecVal(1, WB) << z3.Int2BV(M.nv.t, WB)
+        H.add_goal('L-mask-range (step): prefix masks stay below 2**(number of vectors)',
+                   list(ctx.pc) + defs + wf + [z3.ULT(M.pm(i, k), lim)], z3.ULT(M.pm(i, k + 1), lim), kind='lemma')
+        # the j-th vector (basis order) has key 2**j
+        iv = M.idx(j)
+        H.add_goal('P2 (vectors): canon2bin of the j-th vector name is 2**j',
+                   list(ctx.pc) + [M.pm(iv, 0) == 0, M.pm(iv, 1) == (M.pm(iv, 0) | M.bit(M.ch(iv, 1)))],
+                   M.pm(iv, M.ln(iv) - 1) == (z3.BitVecVal(1, WB) << z3.Int2BV(j, WB)), kind='lemma')
+        # P1 as a statement about the input: the character chosen by min() is one of the vector names (the minimality is the
+        # builtin's contract)
+        return True
+    H.run_paths(fuc, 'custom-basis branch', body)
